@@ -152,4 +152,32 @@ theorem verify_accepts_of_mem (t : Table) (c k : Nat) (i : Inst) (hm : i ∈ t.g
       have := hf i hm'
       simp [hk] at this
 
+/-- every event is an OPN response for channel `c`, a chunk, or the expiry of
+    an instance whose token id is not `c` -/
+def NoTokEqChan (c : Nat) : List Ev → Prop
+  | [] => True
+  | .expire i :: r => i.tok ≠ c ∧ NoTokEqChan c r
+  | _ :: r => NoTokEqChan c r
+
+/-- an instance once stored for channel `c` survives every such event sequence -/
+theorem kept_forever (c : Nat) (evs : List Ev) (t : Table) (i : Inst)
+    (hno : NoTokEqChan c evs) (hm : i ∈ t.get c) : i ∈ (runEvs t evs).get c := by
+  induction evs generalizing t with
+  | nil => exact hm
+  | cons e r ih =>
+    cases e with
+    | opn j =>
+      apply ih _ hno
+      simp only [stepEv]
+      by_cases hc : c = j.chan
+      · subst hc; rw [install_get_same]; exact List.mem_append_left _ hm
+      · rw [install_get_other t j hc]; exact hm
+    | expire j =>
+      apply ih _ hno.2
+      simp only [stepEv]
+      rw [expire_get_other t j (fun e => hno.1 e.symm)]
+      exact hm
+    | chunk a k => exact ih _ hno hm
+
+
 end Opcua.Tokens
